@@ -117,7 +117,7 @@ def rename_case(acc, rnd, tier):
                 trial = dict(new)
                 trial[n] = c
                 mapped = [trial.get(x, x) for x in sorted(names)]
-                if len(set(mapped)) == len(mapped) and mapped == sorted(mapped) and c.isalnum():
+                if len(set(mapped)) == len(mapped) and mapped == sorted(mapped) and c.isalnum() and c not in names:
                     new = trial
                     break
         subset = list(new)
